@@ -58,7 +58,7 @@ PROPS = {
                   "C04/C05/C11 harness (those run the accessors on all 9-byte heads from position 0)",
         "outside": "inputs longer than the stated lengths; wall-clock time (iteration counts are bounded instead); the global allocator",
         "assumptions": ["core::str::from_utf8 over-approximated in the iterator harnesses (validated unstubbed in C04)"],
-        "groups": [core(["c02::c02_"])],
+        "groups": [core(["c02::c02_"]), core(["c02::with_alloc::"], features=("half", "alloc"))],
     },
     "C03": {
         "title": "encoder output is well-formed, deterministic, shortest form",
@@ -141,7 +141,7 @@ PROPS = {
                   "Post: value == frame value & source behind the frame & fresh state | Pending/transient error => Inv again | EOF inside => UnexpectedEof | clean end only at a boundary. Base case: new() satisfies Inv",
         "outside": "the lifting from one step to poll/drop schedules of any length is an induction ARGUMENT (post-states are Inv states, which are all covered as pre-states), not a query; payloads > 2 bytes; > 2 completed reads in one poll",
         "assumptions": ["Vec::resize replaced by a fixed-capacity growth model", "hook: cfg(minicbor_verif) __verif_from_parts/__verif_state (add-only)"],
-        "groups": [io(["c15::c15_"], timeout={"quick": 2400, "thorough": 3600}, mem_gb={"quick": 16, "thorough": 24}, jobs={"quick": 4, "thorough": 4})],
+        "groups": [io(["c15::c15_"], timeout={"quick": 2400, "thorough": 3600}, mem_gb={"quick": 16, "thorough": 24}, jobs={"quick": 3, "thorough": 3})],
     },
     "C16": {
         "title": "AsyncWriter delivers whole frames in order under short writes and cancel+sync",
